@@ -217,7 +217,7 @@ def run_case(case, R):
                 continue
             xi = float(m1.inverse_tail_integral(i, y))
             dens = abs(float(m1.models[i].levy_triplet.nu(x)))
-            if not (abs(xi - x) <= 1e-9 * abs(x) + 1e-12 + (1e-10 * abs(y) / dens if dens > 0 else 0)):
+            if not (abs(xi - x) <= 1e-9 * abs(x) + 1e-12 + ((1e-10 * abs(y) + 10 * floor) / dens if dens > 0 else 0)):
                 R.violation("inverse-tail-integral-does-not-invert", f"{label}: inverse_tail_integral({i}, U_{i}({x})) = {xi!r}", wit)
             y2 = float(m1.marginal_tail_integral(i, xi))
             if not (abs(y2 - y) <= 1e-8 * abs(y)):
